@@ -424,6 +424,18 @@ def inline_new_helpers(tree, module_name, functions_of_class):
                                 i += 1
                                 continue
                             tgt = ast.Name(id=st.target.id, ctx=ast.Store())
+                            # `for r in self.h(..): ...` followed at once by `a, b = r` (or `x = r`): the
+                            # helper's result goes straight into those variables
+                            nxt = block[i + 1] if i + 1 < len(block) else None
+                            if isinstance(nxt, ast.Assign) and len(nxt.targets) == 1 and isinstance(nxt.value, ast.Name) \
+                                    and nxt.value.id == st.target.id and (
+                                        isinstance(nxt.targets[0], ast.Name) or (
+                                            isinstance(nxt.targets[0], ast.Tuple)
+                                            and all(isinstance(x, ast.Name) for x in nxt.targets[0].elts))) \
+                                    and not any(isinstance(x, ast.Name) and x.id == st.target.id and isinstance(x.ctx, ast.Load)
+                                                for s_ in block[i + 2:i + 3] for x in ast.walk(s_)):
+                                tgt = copy.deepcopy(nxt.targets[0])
+                                del block[i + 1]
                         mapping = dict(zip(names, call.args))
                         _INLINE_SEQ[0] += 1
                         pre = "_%s%d_" % (d.name.strip("_"), _INLINE_SEQ[0])
@@ -483,13 +495,20 @@ def inline_new_helpers(tree, module_name, functions_of_class):
                                 keepname[p_] = pre + p_
                                 prologue.append(ast.Assign(targets=[ast.Name(id=pre + p_, ctx=ast.Store())], value=a_))
 
+                        # a helper local that has the name of the variable the call assigns needs no new
+                        # name: the caller's old value is dead (unless an argument still reads it)
+                        free_target = set()
+                        if isinstance(tgt, ast.Name) and not any(
+                                isinstance(x, ast.Name) and x.id == tgt.id for a_ in call.args for x in ast.walk(a_)):
+                            free_target.add(tgt.id)
+
                         class R(ast.NodeTransformer):
                             def visit_Name(self, node):
                                 if node.id in mapping and isinstance(node.ctx, ast.Load):
                                     return copy.deepcopy(mapping[node.id])
                                 if node.id in keepname:
                                     node.id = keepname[node.id]
-                                elif node.id in loc and node.id in used:
+                                elif node.id in loc and node.id in used and node.id not in free_target:
                                     node.id = pre + node.id     # only names the caller already uses are renamed
                                 return node
                         body = early + prologue + [R().visit(s) for s in body]
@@ -901,6 +920,187 @@ def unroll_new_table_loops(fn, keep=()):
     return done
 
 
+def canonical_tests(tree):
+    """one spelling for tests that are written in several: in a boolean context `len(x) == 0` / `< 1` is
+    `not x` and `len(x) != 0` / `> 0` / `>= 1` is `x`; `not a in b` is `a not in b`, `not a is b` is
+    `a is not b`; comparison with None is by identity.  Applied to the whole tree (the rules' own texts
+    use the canonical spelling); it is a matching key, not a claim that the two spellings agree for
+    every type."""
+    def is_len(e):
+        return isinstance(e, ast.Call) and isinstance(e.func, ast.Name) and e.func.id == "len" \
+            and len(e.args) == 1 and not e.keywords
+
+    def const(e, v):
+        return isinstance(e, ast.Constant) and type(e.value) is int and e.value == v
+
+    def boolify(e):
+        """rewrite of an expression whose value is only tested for truth"""
+        if isinstance(e, ast.Compare) and len(e.ops) == 1:
+            l, op, r = e.left, e.ops[0], e.comparators[0]
+            if is_len(l):
+                x = l.args[0]
+                if (isinstance(op, ast.Eq) and const(r, 0)) or (isinstance(op, ast.Lt) and const(r, 1)) \
+                        or (isinstance(op, ast.LtE) and const(r, 0)):
+                    return ast.copy_location(ast.UnaryOp(op=ast.Not(), operand=x), e)
+                if (isinstance(op, (ast.NotEq, ast.Gt)) and const(r, 0)) or (isinstance(op, ast.GtE) and const(r, 1)):
+                    return x
+        if isinstance(e, ast.UnaryOp) and isinstance(e.op, ast.Not):
+            inner = boolify(e.operand)
+            if isinstance(inner, ast.UnaryOp) and isinstance(inner.op, ast.Not):
+                return inner.operand            # not not x
+            e.operand = inner
+            return e
+        if isinstance(e, ast.BoolOp):
+            e.values = [boolify(v) for v in e.values]
+            return e
+        return e
+
+    class C(ast.NodeTransformer):
+        def visit_Compare(self, node):
+            self.generic_visit(node)
+            if len(node.ops) == 1 and isinstance(node.comparators[0], ast.Constant) and node.comparators[0].value is None:
+                if isinstance(node.ops[0], ast.Eq):
+                    node.ops = [ast.Is()]
+                elif isinstance(node.ops[0], ast.NotEq):
+                    node.ops = [ast.IsNot()]
+            return node
+
+        def visit_UnaryOp(self, node):
+            self.generic_visit(node)
+            if isinstance(node.op, ast.Not) and isinstance(node.operand, ast.Compare) and len(node.operand.ops) == 1:
+                op = node.operand.ops[0]
+                if isinstance(op, ast.In):
+                    node.operand.ops = [ast.NotIn()]
+                    return node.operand
+                if isinstance(op, ast.Is):
+                    node.operand.ops = [ast.IsNot()]
+                    return node.operand
+            return node
+
+        def visit_If(self, node):
+            self.generic_visit(node)
+            node.test = boolify(node.test)
+            return node
+
+        def visit_While(self, node):
+            self.generic_visit(node)
+            node.test = boolify(node.test)
+            return node
+
+        def visit_IfExp(self, node):
+            self.generic_visit(node)
+            node.test = boolify(node.test)
+            return node
+
+        def visit_Assert(self, node):
+            self.generic_visit(node)
+            node.test = boolify(node.test)
+            return node
+
+        def visit_comprehension(self, node):
+            self.generic_visit(node)
+            node.ifs = [boolify(i) for i in node.ifs]
+            return node
+    C().visit(tree)
+    ast.fix_missing_locations(tree)
+
+
+_BASE_SRC = [None]
+
+
+def _baseline_sources():
+    if _BASE_SRC[0] is None:
+        p = os.path.join(os.path.dirname(os.path.abspath(__file__)), "baseline_sources.json")
+        try:
+            with open(p) as f:
+                _BASE_SRC[0] = json.load(f)
+        except (IOError, OSError, ValueError):
+            _BASE_SRC[0] = {}
+    return _BASE_SRC[0]
+
+
+def _name_tokens(src):
+    """token stream of a function's source with identifiers abstracted: ([abstract tokens], [names or None])"""
+    import io
+    import keyword
+    import tokenize
+    abstract, names = [], []
+    try:
+        for tok in tokenize.generate_tokens(io.StringIO(src).readline):
+            if tok.type in (tokenize.NL, tokenize.NEWLINE, tokenize.INDENT, tokenize.DEDENT, tokenize.COMMENT,
+                            tokenize.ENDMARKER):
+                continue
+            if tok.type == tokenize.NAME and not keyword.iskeyword(tok.string):
+                if abstract and abstract[-1] == ".":
+                    abstract.append("\x00ATTR " + tok.string)      # an attribute name is not a local
+                    names.append(None)
+                    continue
+                abstract.append("\x00NAME")
+                names.append(tok.string)
+            else:
+                abstract.append(tok.string)
+                names.append(None)
+    except (tokenize.TokenError, IndentationError):
+        return [], []
+    return abstract, names
+
+
+def rename_back_locals(fn, qname, base_locals):
+    """locals of the confirmed tree that are gone, and new locals that stand exactly where they stood:
+    the function's tokens are aligned with the confirmed source (identifiers abstracted, difflib) and a
+    new name that always faces one and the same vanished name - and vice versa - is given that name
+    back.  Only plain renamings are undone; names that do not pair up one-to-one are left alone."""
+    import difflib
+    base_src = _baseline_sources().get(qname)
+    if not base_src:
+        return 0
+    cur_locals = set(local_names(fn))
+    base_locals = set(base_locals)
+    new, gone = cur_locals - base_locals, base_locals - cur_locals
+    if not new or not gone:
+        return 0
+    params = {a.arg for a in fn.args.args + fn.args.kwonlyargs}
+    new -= params
+    if not new:
+        return 0
+    a_abs, a_names = _name_tokens(base_src)
+    b_abs, b_names = _name_tokens(ast.unparse(fn))
+    if not a_abs or not b_abs:
+        return 0
+    sm = difflib.SequenceMatcher(a=a_abs, b=b_abs, autojunk=False)
+    fwd, back = {}, {}
+    for blk in sm.get_matching_blocks():
+        for k in range(blk.size):
+            bn, cn = a_names[blk.a + k], b_names[blk.b + k]
+            if bn is None or cn is None:
+                continue
+            fwd.setdefault(cn, set()).add(bn)
+            back.setdefault(bn, set()).add(cn)
+    mapping = {}
+    for cn in sorted(new):
+        tg = fwd.get(cn, set())
+        if len(tg) == 1:
+            bn = next(iter(tg))
+            if bn in gone and back.get(bn) == {cn}:
+                mapping[cn] = bn
+    if not mapping:
+        return 0
+
+    class R(ast.NodeTransformer):
+        def visit_Name(self, node):
+            if node.id in mapping:
+                node.id = mapping[node.id]
+            return node
+
+        def visit_FunctionDef(self, node):
+            return node if node is not fn else self.generic_visit(node)
+
+        def visit_Lambda(self, node):
+            return self.generic_visit(node)
+    R().generic_visit(fn)
+    return len(mapping)
+
+
 def local_names(fn):
     return sorted({n.id for n in _own_walk(fn) if isinstance(n, ast.Name) and isinstance(n.ctx, ast.Store)})
 
@@ -912,6 +1112,19 @@ def normalize_module(tree, module_name, sigs=None):
     base = _baseline()
     if base is None:
         return 0, 0
+    canonical_tests(tree)
+    # plain renamings of locals are undone first: everything below is keyed on the confirmed names
+    for n_ in tree.body:
+        if isinstance(n_, ast.ClassDef):
+            for c_ in n_.body:
+                if isinstance(c_, ast.FunctionDef):
+                    q_ = "%s:%s.%s" % (module_name, n_.name, c_.name)
+                    if q_ in base:
+                        rename_back_locals(c_, q_, base[q_])
+        elif isinstance(n_, ast.FunctionDef):
+            q_ = "%s:%s" % (module_name, n_.name)
+            if q_ in base:
+                rename_back_locals(n_, q_, base[q_])
     if sigs:
         positional_calls(tree, sigs)
     new_module_constants(tree, module_name, base)
